@@ -1,7 +1,7 @@
 """C08 Angular separations equal the true great-circle angle for every pair."""
 import numpy as np
 
-from vlib import probe
+from vlib import gen, probe
 from vlib.probe import COL
 from vlib.refs import sphere as sp
 
@@ -18,7 +18,7 @@ THOROUGH_ROUNDS = 8      # the thorough tier runs the generator over this many d
 REQUIRED = {"quick": {"C08.sphdist": 2500, "C08.gcirc": 1200, "C08.relations": 1500},
             "thorough": {"C08.sphdist": 50000, "C08.gcirc": 25000, "C08.relations": 30000}}
 FAMS = ["uniform", "tiny", "antipodal", "band", "polar", "seam", "equal"]
-FORMS = ["float", "0d", "len1", "len3", "long", "list"]
+FORMS = ["float", "0d", "len1", "len3", "long", "list", "view"]
 LD = sp.LD
 TOL = {"sphdist": 1e-11, "gcirc": 2e-6}
 
@@ -27,7 +27,7 @@ def cases(seed, tier):
     n = 840 if tier == "quick" else 16800
     rng = np.random.default_rng([seed, 8])
     for i in range(n):
-        yield {"family": FAMS[i % 7], "form": FORMS[(i // 7) % 6], "sub": int(rng.integers(0, 2**31))}
+        yield {"family": FAMS[i % 7], "form": FORMS[(i // 7) % len(FORMS)], "sub": int(rng.integers(0, 2**31))}
 
 
 def offset_point(ra, dec, s_deg, pa_deg):
@@ -50,7 +50,7 @@ def make(case):
     rng = np.random.default_rng(case["sub"])
     fam, form = case["family"], case["form"]
     n = {"float": 1, "0d": 1, "len1": 1, "len3": 3, "list": int(rng.integers(1, 6)),
-         "long": int(rng.choice([10, 100, 1000, 5000]))}[form]
+         "long": int(rng.choice([10, 100, 1000, 5000])), "view": int(rng.choice([2, 7, 100]))}[form]
     ra1 = rng.uniform(0, 360, size=n)
     dec1 = np.degrees(np.arcsin(rng.uniform(-1, 1, size=n)))
     pa = rng.uniform(0, 360, size=n)
@@ -90,6 +90,10 @@ def shape_args(form, arrs):
         return [np.array(a[0]) for a in arrs]
     if form == "list":
         return [a.tolist() for a in arrs]
+    if form == "view":
+        # non-contiguous float64 views: every other element, negative stride, record field, 2-d column, inner slice
+        vr = np.random.default_rng(int(arrs[0].size) + int(abs(arrs[0][0]) * 1000) % 9973)
+        return [gen.as_view(vr, np.array(a))[0] for a in arrs]
     return [np.array(a) for a in arrs]
 
 
@@ -197,7 +201,7 @@ def run_case(case):
                 _rel("plus360", np.all(np.abs(np.atleast_1d(d3) - d) <= 2 * tol), "%s changes when 360 is added to a longitude" % fn, wit)
         if case["family"] == "equal":
             _rel("zero", np.all(d == 0.0), "%s of identical inputs is not exactly zero: %r" % (fn, d[:3]), wit)
-        if form in ("len3", "long", "len1"):
+        if form in ("len3", "long", "len1", "view"):
             i = int(rng.integers(0, ra1.size))
             dsc, e = probe.attempt(f, float(ra1[i]), float(dec1[i]), float(ra2[i]), float(dec2[i]))
             if e is None:
